@@ -274,7 +274,7 @@ var mdTokens = []string{
 	"*", "_", "**", "`", "``", "[", "]", "(", ")", "<", ">", "!", "#", "-", "+", "|", ":", "~", "~~", "\\", "&", "\"", "'", "=",
 	"\n", "\n\n", " ", "  ", "    ", "\t", "a", "1", ".", "1. ", "- ", "> ", "```", "~~~", "***", "---", "===", "é", "\x80", "\x00", "\r",
 	"[^1]", "[^1]: ", "[a]: /u", "](", "![", "<a>", "</a>", "<!--", "-->", "&amp;", "&#35;", "&#x22;", "{#id}", "{.c k=v}", "www.a.b", "http://a.b", "a@b.c",
-	"- [ ] ", "- [x] ", "|-|-|", "| a | b |", ":-:", "\n: ", "日本", "語", "\\ ", "  \n", "\\\n",
+	"\xef\xbb\xbf", "\xef\xbb\xbf# ", "- [ ] ", "- [x] ", "|-|-|", "| a | b |", ":-:", "\n: ", "日本", "語", "\\ ", "  \n", "\\\n",
 }
 
 func mutateDoc(rng *RNG, d []byte, other []byte) []byte {
@@ -483,6 +483,11 @@ func DocStream(rng *RNG, n int, f func(kind string, doc []byte)) {
 		k++
 	}
 	for k < n {
+		if rng.Chance(2) { // a byte-order mark in front of an otherwise ordinary document
+			f("bom", append([]byte("\xef\xbb\xbf"), GenDoc(rng)...))
+			k++
+			continue
+		}
 		switch rng.Intn(4) {
 		case 0:
 			if len(corpus) > 0 {
